@@ -261,9 +261,18 @@ def run_shard(spec, tier, seed):
                         w, wl = mkvec(genv(dim, osys), osys, r.random() < 0.5)
                     except R.NotRepresentable:
                         continue
+                    cancels = False
+                    if not mp_mode and not tau_stored and cur[0] == "rhophi" and (dim == 2 or cur[1] == "z") and r.random() < 0.25:
+                        # an operand whose transverse part cancels v's exactly (x = -v.x, y = -v.y as floats): the result has
+                        # rho == 0, and whatever the in-place path stores as phi then is what the functional path stores
+                        sign = 1.0 if opn == "-=" else -1.0
+                        comps = [sign * float(v.x), sign * float(v.y)] + ([float(gen.dyadic(r, 0.3, 3))] if dim >= 3 else []) + \
+                            ([float(gen.dyadic(r, 20, 40))] if dim == 4 else [])
+                        w = B.mk_obj(R.SYSTEMS[dim][0], comps, r.random() < 0.5)
+                        cancels = True
                     snapshot = copy.copy(v)
                     functional = (snapshot + w) if opn == "+=" else (snapshot - w)
-                    hist.append(f"{opn} {type(w).__name__}{[E.f(c) for c in B.obj_stored(w)[1]]}")
+                    hist.append(f"{opn} {type(w).__name__}{[E.f(c) for c in B.obj_stored(w)[1]]}" + (" [cancels the transverse part exactly]" if cancels else ""))
                     try:
                         v2 = v
                         if opn == "+=":
